@@ -19,6 +19,7 @@ global kvVal StrMap
 global computed U_V            -- what the compute callback of the current Compute call returned
 global computeFailed Bool
 global computeCalled Bool
+global shown U_V               -- the current value the compute callback was shown
 
 specfun encOK(v U_V) Bool
 specfun enc(v U_V) Str
@@ -148,13 +149,17 @@ func TypedValue.Compute#sequential
     ghost at return: computed = nv
     ghost at return: computeFailed = (cerr != nil)
     ghost at return: computeCalled = true
-  modifies t.valueCached, t.hasCached, ghost(kvHas), ghost(kvVal), ghost(computed), ghost(computeFailed), ghost(computeCalled)
+    ghost at return: shown = cur
+  modifies t.valueCached, t.hasCached, ghost(kvHas), ghost(kvVal), ghost(computed), ghost(computeFailed), ghost(computeCalled), ghost(shown)
   -- a successful, changing Compute stores exactly the encoding of the computed value, for this key only
   ensures err == nil && (kvHas != old(kvHas) || kvVal != old(kvVal)) ==> computeCalled && !computeFailed && encOK(computed) && newValue == computed && kvHas == upd(old(kvHas), content(t.keyBytes), true) && kvVal == upd(old(kvVal), content(t.keyBytes), enc(computed))
   -- every failure is reported and leaves store and cache unchanged
   ensures err != nil ==> kvHas == old(kvHas) && kvVal == old(kvVal) && t.valueCached == old(t.valueCached) && t.hasCached == old(t.hasCached)
   -- a computed value that cannot be encoded is a failure
   ensures computeCalled && !computeFailed && !encOK(computed) ==> err != nil
+  -- a callback that declines (ErrTypedValueNotChanged: the only callback failure Compute does not report) gets the
+  -- current value back - the one it was shown - not whatever it returned next to the error
+  ensures computeCalled && computeFailed && err == nil ==> newValue == shown
 
 -- TypedStore: every method is the raw operation on kenc(key) under the codec; every codec or
 -- store failure is reported; a failing call leaves the store unchanged.
